@@ -355,9 +355,9 @@ def c11():
     return dict(
         queries=qs,
         level='model_checking',
-        level_text='Bounded: range_is / starts_with / ends_with (element lists of values and of matchers, and range forms stored by copy or as a span) and range_all_of / any_of / none_of equal their definitions for all 32-bit element values on std::array, C arrays and std::vector of length <=3 (4) with element lists of length <=3; range_is_permutation / range_includes equal the multiset definition for value lists, and the documented first-fit/swap-remove assignment for overlapping matchers, over a 4-value alphabet (duplicates inside).',
+        level_text='Bounded: range_is / starts_with / ends_with (element lists of values and of matchers, and range forms stored by copy or as a span) and range_all_of / any_of / none_of equal their definitions for all 32-bit element values on std::array, C arrays, std::vector and std::list of length <=3 (4) with element lists of length <=3; range_is_permutation / range_includes equal the multiset definition for value lists, and the documented first-fit/swap-remove assignment for overlapping matchers, over a 4-value alphabet (duplicates inside).',
         bound='ranges of length 0..3 quick / 0..4 thorough, element lists 0..3 (permutation / includes: 2), all int values (permutation / includes: values in 0..3 so that duplicates are frequent)',
-        outside='std::list / std::deque (node containers), a single plain element given to range_is_permutation / range_includes (selects the range-form overload; not a documented form)',
+        outside='std::deque, initializer-list ranges, a single plain element given to range_is_permutation / range_includes (selects the range-form overload; not a documented form)',
     )
 
 
